@@ -465,7 +465,7 @@ Definition merged_entries (szs : list Z) (d : Z) (es : list entry) : Z + list en
   end.
 (* GenomicIntervalsFull.extended_to_size rebuilds its result with from_intervals(.., genome_context) and does not hand
    the strandedness flag on (HEAD: false).  notes/C10.fix-6.diff passes it on (then: true). *)
-Definition extend_keeps_strand := false.
+Definition extend_keeps_strand := true.
 Definition pstate := (bool * list entry)%type.
 Definition model_step_gen (keep : bool) (szs : list Z) (st : pstate) (p : pstep) : Z + pstate :=
   let '(fl, rows) := st in
